@@ -5,7 +5,7 @@ CONSTANTS
   NumChoices <- NC_small
   RunChoices <- RC_one
   OtherChoices = {"sst", "fstr"}
-  MaxCells = 4
+  MaxCells = 3
   MaxRun = 3
   MaxIgn = 0
   WithDims = TRUE
